@@ -222,12 +222,40 @@ def run(ctx):
                     incs = [n for n in ast.walk(lp) if isinstance(n, ast.AugAssign)]
                     if len(J) == 1 and len(rme) == 1 and txt(rme[0].func.value) == J[0] and len(conn) == 1 and txt(conn[0].args[0]) == J[0] and len(incs) == 1:
                         # removal of exactly the chosen edges
+                        ok_rm = None          # True: exactly the subset; False: recognisably another set; None: not recognised
                         if rme[0].func.attr == "remove_edges_from":
-                            ok_rm = txt(rme[0].args[0]) in (comb, f"list({comb})")
+                            a_ = txt(sc.resolve(rme[0].args[0])) if rme[0].args else ""
+                            if a_ in (comb, f"list({comb})", f"tuple({comb})", f"set({comb})"):
+                                ok_rm = True
+                            elif rme[0].args and isinstance(sc.resolve(rme[0].args[0]), ast.Subscript) and txt(sc.resolve(rme[0].args[0]).value) == comb:
+                                ok_rm = False
                         else:
                             l2 = par.loops_of(rme[0])
-                            ok_rm = bool(l2) and txt(l2[0].iter) == comb and txt(rme[0].args[0]) in (f"*{txt(l2[0].target)}",)
-                        o.check(ok_rm, f, rme[0], "removes exactly the chosen edges from a fresh copy", "the edges removed are not exactly the chosen subset")
+                            if l2 and l2[0] is not lp:
+                                it_ = sc.resolve(l2[0].iter)
+                                tg = l2[0].target
+                                args_ = [txt(a) for a in rme[0].args]
+                                if isinstance(tg, ast.Name):
+                                    good = [[f"*{tg.id}"], [f"{tg.id}[0]", f"{tg.id}[1]"], [f"{tg.id}[1]", f"{tg.id}[0]"]]
+                                    bad = [[f"{tg.id}[0]", f"{tg.id}[0]"], [f"{tg.id}[1]", f"{tg.id}[1]"]]
+                                elif isinstance(tg, ast.Tuple) and len(tg.elts) == 2 and all(isinstance(x, ast.Name) for x in tg.elts):
+                                    u_, v_ = tg.elts[0].id, tg.elts[1].id
+                                    good = [[u_, v_], [v_, u_]]
+                                    bad = [[u_, u_], [v_, v_]]
+                                else:
+                                    good, bad = [], []
+                                pc_ = rules.path_conditions(par, rme[0], upto=l2[0])
+                                direct = not list(pc_) and pc_.complete
+                                if txt(it_) in (comb, f"list({comb})") and args_ in good and direct:
+                                    ok_rm = True
+                                elif (isinstance(it_, ast.Subscript) and txt(it_.value) == comb) or args_ in bad or (txt(it_) in (comb, f"list({comb})") and args_ in good and not direct):
+                                    ok_rm = False
+                                elif isinstance(it_, ast.Name) and it_.id != comb and args_ in good:
+                                    ok_rm = False
+                        if ok_rm is None:
+                            o.undecided("removal of the chosen edges not recognised", f, rme[0])
+                        else:
+                            o.check(ok_rm, f, rme[0], "removes exactly the chosen edges from a fresh copy", "the edges removed are not exactly the chosen subset")
                         ifn = par.stmt_of(conn[0])
                         inc = incs[0]
                         pos = isinstance(ifn, ast.If) and ifn.test is conn[0] and par.branch_of(inc, ifn) == "body"
